@@ -146,6 +146,104 @@
 #include <assert.h>
 #include <ctype.h>
 #include <string.h>
+
+#ifdef FLAMEWING_ASL_VERIF
+#    include "as_endian.h"
+/* Verification hooks (off unless built with -DFLAMEWING_ASL_VERIF and the
+   controlling environment variables are set):
+   ASL_VERIF_EXTRA_PASSES=n  force n more passes per file after convergence
+   ASL_VERIF_MAX_PASSES=n    exit(97) when a file needs more than n passes
+   ASL_VERIF_MAX_LINES=n     exit(98) after n source/macro lines
+   ASL_VERIF_TRACE=<file>    append pass/emission records to <file> */
+static int      asl_verif_inited;
+static long     asl_verif_extra_passes, asl_verif_max_passes, asl_verif_max_lines;
+static long     asl_verif_extra_left, asl_verif_lines;
+static FILE*    asl_verif_trace;
+
+static void asl_verif_init(void) {
+    char const* p;
+
+    if (asl_verif_inited) {
+        return;
+    }
+    asl_verif_inited = 1;
+    p = getenv("ASL_VERIF_EXTRA_PASSES");
+    asl_verif_extra_passes = p ? atol(p) : 0;
+    p = getenv("ASL_VERIF_MAX_PASSES");
+    asl_verif_max_passes = p ? atol(p) : 0;
+    p = getenv("ASL_VERIF_MAX_LINES");
+    asl_verif_max_lines = p ? atol(p) : 0;
+    p = getenv("ASL_VERIF_TRACE");
+    if (p && *p) {
+        asl_verif_trace = fopen(p, "a");
+    }
+}
+
+static void asl_verif_file_begin(void) {
+    asl_verif_init();
+    asl_verif_extra_left = asl_verif_extra_passes;
+    if (asl_verif_trace) {
+        fprintf(asl_verif_trace, "F %s\n", SourceFile);
+    }
+}
+
+static void asl_verif_pass_end(void) {
+    asl_verif_init();
+    if (asl_verif_trace) {
+        fprintf(asl_verif_trace, "P %d %d %d %d %08lx\n", (int)PassNo, (int)ErrorCount,
+                (int)WarnCount, (int)Repass, (unsigned long)asl_verif_symbol_hash());
+        fflush(asl_verif_trace);
+    }
+    if ((ErrorCount == 0) && !Repass && (asl_verif_extra_left > 0)) {
+        asl_verif_extra_left--;
+        Repass = True;
+    }
+    if ((ErrorCount == 0) && Repass && (asl_verif_max_passes > 0)
+        && (PassNo >= asl_verif_max_passes)) {
+        fprintf(stderr, "ASL_VERIF: pass limit %ld reached\n", asl_verif_max_passes);
+        if (asl_verif_trace) {
+            fclose(asl_verif_trace);
+        }
+        exit(97);
+    }
+}
+
+static void asl_verif_line(void) {
+    if ((asl_verif_max_lines > 0) && (++asl_verif_lines > asl_verif_max_lines)) {
+        fprintf(stderr, "ASL_VERIF: line limit %ld reached\n", asl_verif_max_lines);
+        exit(98);
+    }
+}
+
+static void asl_verif_trace_chunk(void) {
+    LongInt  n, z;
+    Boolean  Turn;
+
+    if (!asl_verif_trace) {
+        return;
+    }
+    Turn = ((TurnWords != 0) != (HostBigEndian != 0));
+    n    = (ActPC == StructSeg) ? 0 : (LongInt)CodeLen * Granularity();
+    fprintf(asl_verif_trace, "E %d %s %ld %d %d %d %d %d %llx %llx %ld ", (int)PassNo,
+            CurrFileName, (long)CurrLine, (int)InMacroFlag, (int)ActPC, (int)Granularity(),
+            (int)ActListGran, (int)(DontPrint ? 1 : 0), (unsigned long long)ProgCounter(),
+            (unsigned long long)Phases[ActPC], (long)CodeLen);
+    if (!DontPrint && (n > 0)) {
+        if (Turn) {
+            DreheCodes();
+        }
+        for (z = 0; z < n; z++) {
+            fprintf(asl_verif_trace, "%02x", (unsigned)BAsmCode[z]);
+        }
+        if (Turn) {
+            DreheCodes();
+        }
+    } else {
+        fputc('-', asl_verif_trace);
+    }
+    fputc('\n', asl_verif_trace);
+}
+#endif /* FLAMEWING_ASL_VERIF */
 /**          Code21xx};**/
 
 static long     StartTime, StopTime;
@@ -2134,6 +2232,9 @@ static void GetNextLine(as_dynstr_t* pLine) {
 
     InMacroFlag = False;
 
+#ifdef FLAMEWING_ASL_VERIF
+    asl_verif_line();
+#endif
     while (FirstInputTag && FirstInputTag->IsEmpty) {
         FirstInputTag->Cleanup(FirstInputTag);
         FirstInputTag->Restorer(FirstInputTag);
@@ -2317,6 +2418,9 @@ void WriteCode(void) {
     } else {
         LargeWord NewPC = ProgCounter() + CodeLen;
 
+#ifdef FLAMEWING_ASL_VERIF
+        asl_verif_trace_chunk();
+#endif
         if ((!DontPrint) && (ActPC != StructSeg) && (CodeLen > 0)) {
             BookKeeping();
         }
@@ -3078,6 +3182,9 @@ static void AssembleFile(char* Name) {
     if (MakeDebug) {
         fprintf(Debug, "File %s\n", SourceFile);
     }
+#ifdef FLAMEWING_ASL_VERIF
+    asl_verif_file_begin();
+#endif
 
     /* Untermodule initialisieren */
 
@@ -3278,6 +3385,9 @@ static void AssembleFile(char* Name) {
 
         /* evtl. fuer naechsten Durchlauf aufraeumen */
 
+#ifdef FLAMEWING_ASL_VERIF
+        asl_verif_pass_end();
+#endif
         if ((ErrorCount == 0) && (Repass)) {
             CloseIfOpen(&LstFile);
             if (CodeOutput) {
